@@ -130,6 +130,8 @@ pub enum ReverseStep {
 pub struct ErrorContext {
     err: Xerr,
     location: Option<TokenLocation>,
+    // raised while running, not while building
+    runtime: bool,
 }
 
 #[derive(Default, Clone)]
@@ -351,17 +353,61 @@ impl State {
 
     fn build_from_file(&mut self, path: Xstr, mode: ContextMode) -> Xresult {
         let s = crate::file::fs_overlay::read_source_file(&path)?;
-        self.context_open(mode)?;
-        self.intern_source(s.into(), Some(path))?;
-        self.build0()?;
-        self.context_close()
+        self.build_from(s.into(), Some(path), mode)
     }
 
     fn build_from_source(&mut self, s: Xstr, mode: ContextMode) -> Xresult {
+        self.build_from(s, None, mode)
+    }
+
+    fn build_from(&mut self, s: Xstr, path: Option<Xstr>, mode: ContextMode) -> Xresult {
+        let mark = self.build_mark();
         self.context_open(mode)?;
-        self.intern_source(s, None)?;
-        self.build0()?;
-        self.context_close()
+        let res = match self.intern_source(s, path).and_then(|_| self.build0()) {
+            Ok(()) => self.context_close(),
+            Err(e) => Err(e),
+        };
+        if res.is_err() {
+            self.build_abort(mark);
+        }
+        res
+    }
+
+    // what a build may leave behind: remember it on entry
+    fn build_mark(&mut self) -> (usize, usize, usize) {
+        if self.nested.is_empty() && self.last_error.as_ref().map_or(false, |e| e.runtime) {
+            // a program that failed at run time is not resumed by later sources
+            self.ctx.ip = self.code_origin();
+        }
+        (self.nested.len(), self.input.len(), self.data_stack.len())
+    }
+
+    // a rejected source has no effect: drop its unread text, pending flows,
+    // half-built code and definitions, and return to the enclosing context
+    fn build_abort(&mut self, mark: (usize, usize, usize)) {
+        let (depth, inputs, ds_len) = mark;
+        if self.nested.len() <= depth {
+            // the source was built, it failed while running: halt it
+            self.ctx.ip = self.code_origin();
+            return;
+        }
+        let ctx = self.nested.get(depth + 1).cloned().unwrap_or_else(|| self.ctx.clone());
+        self.input.truncate(inputs);
+        self.flow_stack.truncate(ctx.fs_len);
+        self.code.truncate(ctx.cs_len);
+        self.debug_map.truncate(ctx.cs_len);
+        self.dict.truncate(ctx.di_len);
+        self.data_stack.truncate(ds_len);
+        self.return_stack.truncate(ctx.rs_len);
+        self.loops.truncate(ctx.ls_len);
+        self.special.truncate(ctx.ss_ptr);
+        self.nested.truncate(depth + 1);
+        if let Some(prev) = self.nested.pop() {
+            self.ctx = prev;
+        }
+        if let Some(ec) = self.last_error.as_mut() {
+            ec.runtime = false;
+        }
     }
 
     pub fn eval_file(&mut self, path: Xstr) -> Xresult {
@@ -399,6 +445,7 @@ impl State {
                 self.last_error = Some(ErrorContext {
                     err: e.clone(),
                     location,
+                    runtime: false,
                 });
             }
             e
@@ -522,15 +569,18 @@ impl State {
     }
 
     fn context_close(&mut self) -> Xresult {
-        let mut prev = self
+        // the enclosing context stays on the stack until nothing can fail anymore
+        let prev = self
             .nested
-            .pop()
+            .last()
+            .cloned()
             .ok_or_else(|| Xerr::unbalanced_context())?;
         if self.ctx.mode == ContextMode::Eval {
-            self.run()?;
-            if prev.mode == ContextMode::Eval {
-                // preserve current ip value
-                prev.ip = self.ctx.ip;
+            if let Err(e) = self.run() {
+                // built, but failed while running: leave the context, halted
+                self.nested.pop();
+                self.ctx = prev;
+                return Err(e);
             }
         } else if self.ctx.mode == ContextMode::MetaEval {
             self.run()?;
@@ -558,6 +608,12 @@ impl State {
                 }
             }
         }
+        let mut prev = prev;
+        if self.ctx.mode == ContextMode::Eval && prev.mode == ContextMode::Eval {
+            // preserve current ip value
+            prev.ip = self.ctx.ip;
+        }
+        self.nested.pop();
         self.ctx = prev;
         OK
     }
@@ -902,6 +958,7 @@ impl State {
             self.last_error = Some(ErrorContext {
                 err: e.clone(),
                 location,
+                runtime: true,
             });
         }
     }
